@@ -1365,7 +1365,14 @@ class BaseGaussianState(BaseState):
                 cutoff=cutoff,
                 check_purity=False,
             )
-            rho = np.outer(psi, psi.conj())
+            # same index convention as BaseFockState.dm and the mixed branch:
+            # rho[i_0, j_0, i_1, j_1, ...]
+            num = len(modes)
+            left = indices[0 : 2 * num : 2]
+            right = indices[1 : 2 * num : 2]
+            rho = np.einsum(
+                "{},{}->{}".format(left, right, indices[: 2 * num]), psi, psi.conj()
+            )
             return rho
 
         return twq.density_matrix(mu, cov, hbar=self._hbar, normalize=True, cutoff=cutoff)
